@@ -1001,6 +1001,10 @@ int run_steps(int argc, char** argv)
             // precision near the pole), so the cone bracket is widened there
             double const sin_axis = std::sqrt(sdir[0] * sdir[0] + sdir[1] * sdir[1]);
             rk["conetol"] = R(sin_axis > 0 && sin_axis < 1e-6 ? 3e-8 : k_cone_tol);
+            // scope facts of the named deviation RotateNearPoleNegativeY (F-ROT-1)
+            rec["axis"] = {{"near", sin_axis > 0 && sin_axis < 0.005 * (1 + 1e-9)},
+                           {"yneg", sdir[1] < 0}};
+            rec["x"]["sin_axis"] = g17(sin_axis);
         }
         double const bmaxv = std::max(s.bpre, s.bpost);
         double const bminv = std::min(s.bpre, s.bpost);
